@@ -136,16 +136,18 @@ func kvModel(lazy bool) porcupine.Model {
 	}
 }
 
-// ---- pool model: two databases, flush moves both overlays down -------------------------------------------
+// ---- pool model: three databases, flush moves all overlays down -------------------------------------------
 
-type poolState struct{ db [2]kvState }
+const nPoolDBs = 3
+
+type poolState struct{ db [nPoolDBs]kvState }
 
 func poolModel() porcupine.Model {
 	return porcupine.Model{
 		Init: func() interface{} { return poolState{} },
 		Step: func(state, input, output interface{}) (bool, interface{}) {
 			st, op, out := state.(poolState), input.(sim.Op), output.(string)
-			d := int(arg(op, 2)) % 2
+			d := int(arg(op, 2)) % nPoolDBs
 			switch op.K {
 			case "flushpool":
 				for i := range st.db {
